@@ -47,6 +47,26 @@ class Ctx:
         raise SpecUndetermined("the result must depend on whether %s == 0, which this path never tested" % repr(p)[:120])
 
 
+def _hkey(x):
+    """exact memo key (Poly.__repr__ abbreviates long polynomials, so repr() must never be used as a key)"""
+    if isinstance(x, Poly):
+        return ("poly", frozenset(x.t.items()))
+    if isinstance(x, (int, str)):
+        return x
+    if isinstance(x, (tuple, list)):
+        return tuple(_hkey(y) for y in x)
+    t = getattr(x, "t", None)
+    if isinstance(t, dict):
+        try:
+            return (type(x).__name__, frozenset((k, _hkey(v)) for k, v in t.items()))
+        except TypeError:
+            pass
+    r = repr(x)
+    if "terms)" in r:
+        raise SymxError("memo key for an abbreviated repr")
+    return r
+
+
 class SpecUndetermined(Exception):
     pass
 
@@ -73,7 +93,7 @@ class RingDomain:
         return 0 if self.is_big(t) else Poly.const(0)
 
     def sym(self, fname, *key):
-        k = (fname,) + tuple(repr(x) for x in key)
+        k = (fname,) + tuple(_hkey(x) for x in key)
         if k not in self.uf:
             self.uf[k] = "%s#%d" % (fname, len(self.uf))
         return Poly.var(self.uf[k])
@@ -92,8 +112,8 @@ class RingDomain:
             return True
         if p.is_const():
             return False
-        key = repr(p)
-        nkey = repr(-p)
+        key = _hkey(p)
+        nkey = _hkey(-p)
         if nkey in I.path.memo:
             return I.path.memo[nkey]
         return I.path.decide(("is_zero", label, p), (False, True), key=key)
